@@ -80,6 +80,40 @@ CLAIMS = {
        "octree renders), and concurrent values against sequential values; ConcTrace.tla judges the observations.",
   design_ref="DESIGN.md section 6 C10", technique="TLC model checking of access interleavings + race-detector / deep-digest observation of every shape type judged by a TLC trace spec",
   note=TB + " The race detector sees only races in the schedules run; the defect found (Cache2D) is repaired by fix: commit 53d59b1."),
+ "C13": dict(
+  text="StlFormat.tla gives the binary STL layout at token level (80-byte header, u32 count, 12 float32 + u16 per triangle), "
+       "Encode / Decode and the float32 image of dyadic numbers by integer arithmetic; StlStream.tla is the streaming writer "
+       "(placeholder header, records through a bufio buffer, flush, seek 0, header rewrite) checked for every split into "
+       "batches and every buffer capacity. TLC-drawn triangle lists (0..3 triangles at scales 2^-149..2^104; 0, 1, 2, 255, "
+       "256, 257, 1000 triangles) and seeded real-valued lists (tiny, huge, exact ties, signed zeros) are written by the real "
+       "SaveSTL, ToSTL (scripted renderer) and writeSTL, parsed by an independent little-endian reader and loaded back by "
+       "LoadSTL; StlTrace.tla judges size, count, float32 tokens in order and winding, zero attribute, unit right-hand-rule "
+       "normals (exact integer test and measured), streamed = batch bytes, LoadSTL = float32 image, and hand-made ASCII files.",
+  design_ref="DESIGN.md section 6 C13", technique="TLC model of the format and of the streaming writer + replay into the real writers/loader + TLC trace validation of the real bytes",
+  note=TB + " float32 rounding of non-dyadic inputs is data (math/big, cross-checked by bit manipulation), not derived by TLC. "
+       "Known finding: an ASCII STL shorter than 84 bytes (empty solid) fails to load."),
+ "C14": dict(
+  text="StlLoader.tla is the decision procedure of LoadSTL over abstract files (size / header-count relation; body = sequence "
+       "of line kinds as bufio.Scanner, strings.Fields and ParseFloat classify them), with the ASCII grouping written as the code "
+       "does it. TLC checks totality of the guarded procedure for every body of <= 5 (thorough 6) lines x 7 layouts and shows that "
+       "the procedure as written panics for a vertex count not divisible by 3. Every exported abstract file is concretised to "
+       "bytes in several seeded variants and, with seeded byte mutations of the shipped and generated STL files (truncation, "
+       "extension, count edits incl. 2^32-1 and the 32-bit wrap, flips, splices, line edits), loaded by the real LoadSTL and "
+       "ImportSTL in a child process (recover, watchdog, address-space limit, allocation measure); StlLoaderTrace.tla rejects "
+       "Panic / Crash / Hang / OverAlloc and allocation above 64 x size + 4 MiB.",
+  design_ref="DESIGN.md section 6 C14", technique="TLC model of the loader's decision procedure + replay of concretised abstract files and seeded mutations into the real loader + TLC trace validation",
+  note=TB + " 'All byte strings' is sampled through the line-kind abstraction and seeded mutations, not enumerated. "
+       "Known finding: loadSTLAscii panics when the number of vertex lines is not a multiple of 3."),
+ "C15": dict(
+  text="Export.tla specifies the 3MF mesh builder as a fold (AddVertex = existing index or append, AddTriangle), one DXF LINE per "
+       "segment on layer Lines in order, and the SVG running min/max, translation to the minimum corner, Y flip and canvas = "
+       "extent, on exact quarter-integer coordinates. TLC enumerates all lists of <= 2 triangles over a point set (duplicates, "
+       "shared vertices, degenerate, negative, beyond 2147 mm) and <= 2 segments over a 3x3 grid, plus LCG-drawn longer lists; "
+       "each is written by the real To3MF / ToDXF / SaveDXF / ToSVG / SaveSVG (scripted renderers) and decoded with the go3mf "
+       "reader + raw XML, the yofu/dxf reader and encoding/xml; ExportTrace.tla compares structure, order, winding, layer, unit, "
+       "canvas. Seeded real-valued lists at five magnitudes are measured against half a unit of each format's last decimal.",
+  design_ref="DESIGN.md section 6 C15", technique="TLC model of the three writers + replay into the real exporters + independent decoding + TLC trace validation",
+  note=TB + " Known finding: beyond |x| = 2147.483647 the go3mf mesh builder used by write3MF merges distinct vertices."),
 }
 
 NOT_APPLICABLE = {}
